@@ -61,6 +61,7 @@ func (x *Exec) check(st *State, goal *Term, kind, clause, site, text string) {
 // ---------- frame ----------
 
 type modTarget struct {
+	whole bool // allof(x.f): the field of every object of x's type
 	all  bool
 	key  string // full heap key (root|path+leaf) ; "" with all
 	base *Term
@@ -99,6 +100,10 @@ func (x *Exec) frameCheck(st *State, l *Loc, pos token.Pos) {
 				continue
 			}
 			if m.key == "" && !strings.HasPrefix(key, m.root) {
+				continue
+			}
+			if m.whole {
+				leafAlts = append(leafAlts, TTrue)
 				continue
 			}
 			c := Eq(l.Base, m.base)
